@@ -17,6 +17,7 @@ import (
 	"verif/harness/internal/c13"
 	"verif/harness/internal/c14"
 	"verif/harness/internal/c15"
+	"verif/harness/internal/c17"
 )
 
 func main() {
@@ -39,6 +40,8 @@ func main() {
 		os.Exit(c14.Main(os.Args[2:]))
 	case "c15":
 		os.Exit(c15.Main(os.Args[2:]))
+	case "c17":
+		os.Exit(c17.Main(os.Args[2:]))
 	case "c02":
 		os.Exit(c02.Main(os.Args[2:]))
 	case "c06":
